@@ -7,6 +7,7 @@ R6.4  alias classes: base chosen by range helpers that evaluate to [400,499] / [
       the handler raises an alias has an alias class (agreement handler <-> ExceptionVisitor/ExceptionsEmitter)
 R6.5  errors carry status and response (HTTPError.__init__, alias __init__ template, raise templates)
 R6.6  the shared-core predicate holds for every layout [= R11.2]; R6.7 call-local memo keys in the loader cover the status code
+R6.9  the alias module regenerated for the union of all clients' codes imports ClientError and ServerError unconditionally          [= R11.4]
 R6.8  the exception registry is read, extended and written back as a union, never rebuilt (alias classes of other clients stay importable)  [= R11.1]
 """
 from __future__ import annotations
@@ -209,7 +210,8 @@ def run(repo: Repo, rep: Report, tier: str) -> None:
 
     reuse(repo, rep, "c11", {"R11.2": "R6.6"})
     # R6.8: the alias classes other clients raise survive a regeneration (registry read-modify-write-union)
-    reuse(repo, rep, "c11", {"R11.1": "R6.8"})
+    # R6.9: ... and the regenerated alias module imports the base class of every alias it defines, whatever the current spec declares
+    reuse(repo, rep, "c11", {"R11.1": "R6.8", "R11.4": "R6.9"})
     from rules._memo import local_memo_rule
 
     local_memo_rule(repo, rep, "R6.7", ("core.loader",),
